@@ -10,8 +10,9 @@ def Resp.core : Resp → Resp
   | .head l _ m => .head l none m
   | r => r
 
-/-- `head_object` comparable: names agree; for admissible names, when the bucket exists the key names a file
-    [else fs:head-missing-key-code, fs:leftover-directory] -/
+/-- `head_object` comparable: names agree; for admissible names, when the bucket exists the path is not a leftover
+    directory [else fs:leftover-directory]. A missing key in an existing bucket is inside since d6f1a3c (`NoSuchKey`
+    on both sides; before: fs:head-missing-key-code) -/
 def HeadOk (s : State) (b k : Bytes) : Prop :=
   NameOk b ∧ CanonKey k ∧ sideTooLong b k false = false ∧
   (bucketOk b = true →
@@ -20,7 +21,7 @@ def HeadOk (s : State) (b k : Bytes) : Prop :=
     | some p =>
       match s.tree b with
       | none => True
-      | some t => isFile (t.node p) = true)
+      | some t => ReadableNode (t.node p))
 
 theorem head_refines (H : Hashes) (dl : Nat) {s : State} (hi : Inv s) {b k : Bytes} (hg : HeadOk s b k) :
     (step H dl s (.headObject b k)).2.core = (StoreSpec.step H (abs s) (.headObject b k)).2.core ∧
@@ -40,7 +41,9 @@ theorem head_refines (H : Hashes) (dl : Nat) {s : State} (hi : Inv s) {b k : Byt
       cases ht : s.tree b with
       | none =>
         have habs : (abs s).bucket b = none := by rw [abs_bucket, ht]; rfl
-        simp [step, StoreSpec.step, objPath, hbd, hkp, hbo, hko, habs, State.node, ht, hi]
+        have hh : alHas b s.buckets = false := by
+          unfold State.tree at ht; simp [alHas, ht]
+        simp [step, StoreSpec.step, objPath, hbd, hkp, hbo, hko, habs, State.node, ht, hh, hi]
       | some t =>
         rw [ht] at hbucket
         simp only at hbucket
@@ -50,10 +53,14 @@ theorem head_refines (H : Hashes) (dl : Nat) {s : State} (hi : Inv s) {b k : Byt
         rw [hcanon] at hlook
         have hnode : s.node b p = t.node p := by simp [State.node, ht]
         cases hn : t.node p with
-        | none => rw [hn] at hbucket; simp [isFile] at hbucket
+        | none =>
+          have hh : alHas b s.buckets = true := by
+            unfold State.tree at ht; simp [alHas, ht]
+          rw [hn] at hlook
+          simp [step, StoreSpec.step, objPath, hbd, hkp, hbo, hko, habs, hnode, hn, hlook, hh, hi]
         | some n =>
           cases n with
-          | dir => rw [hn] at hbucket; simp [isFile] at hbucket
+          | dir => rw [hn] at hbucket; exact absurd hbucket (by simp [ReadableNode])
           | file c =>
             rw [hn] at hlook
             simp only [Option.bind_some, nodeObj] at hlook
